@@ -267,6 +267,10 @@ fn check(d: &Disc, case: &mut Case) -> Result<(), Fail> {
     let mut seen: BTreeMap<String, (Option<String>, usize, BTreeMap<usize, u64>)> = BTreeMap::new();
     let mut vnow: u64 = 0;
     let mut timed = false;
+    // instance names of peers some of whose records have lapsed (goodbye, or TTL elapsed) since their last complete
+    // announcement: when a lapsed record stops being reported is C20's statement, so for these peers only "nothing
+    // beyond what the peer advertised, nothing missing of what is certainly alive" is claimed
+    let mut lapsed: BTreeSet<String> = BTreeSet::new();
     for ann in &d.seq {
         // bookkeeping of receptions for the time-aware oracle
         {
@@ -372,6 +376,7 @@ fn check(d: &Disc, case: &mut Case) -> Result<(), Fail> {
                 let p = &d.peers[*i as usize % d.peers.len()];
                 let owner = format!("{}.{}", p.name, service);
                 let e = (Some(p.name.clone()), summary_of_peer(p));
+                lapsed.remove(&p.name);
                 expected.insert(owner.clone(), e.clone());
                 (announcement(info_of(p, &p.name), &owner, d.ttl)?, Some(e))
             }
@@ -380,6 +385,7 @@ fn check(d: &Disc, case: &mut Case) -> Result<(), Fail> {
                 let p = &d.peers[*i as usize % d.peers.len()];
                 let owner = format!("{}.{}", p.name, service);
                 let e = (Some(p.name.clone()), summary_of_peer(p));
+                lapsed.remove(&p.name);
                 expected.insert(owner.clone(), e.clone());
                 let hosts = [format!("{}.local", p.name), format!("{}.{}", p.name, foreign[*w as usize % 4]), service.to_string()];
                 let hs: Vec<&str> = hosts.iter().map(|s| s.as_str()).take(1 + (*w as usize % 3)).collect();
@@ -406,6 +412,7 @@ fn check(d: &Disc, case: &mut Case) -> Result<(), Fail> {
                         r.ttl = d.ttl;
                         pk.answers.push(r);
                     }
+                    lapsed.remove(&p.name);
                     expected.insert(owner, (Some(p.name.clone()), summary_of_peer(p)));
                     msgs_expected = Some((None, summary_of_peer(p)));
                 }
@@ -415,8 +422,9 @@ fn check(d: &Disc, case: &mut Case) -> Result<(), Fail> {
                 noise += 1;
                 let p = &d.peers[*i as usize % d.peers.len()];
                 let owner = format!("{}.{}", p.name, service);
-                // TTL 0: the records are gone at once; nothing is reported for this peer until it advertises again
+                // TTL 0: the records are gone at once; nothing needs to be reported for this peer until it advertises again
                 expected.remove(&owner);
+                lapsed.insert(p.name.clone());
                 (announcement(info_of(p, &p.name), &owner, 0)?, Some((None, summary_of_peer(p))))
             }
             Ann::Own => {
@@ -499,6 +507,9 @@ fn check(d: &Disc, case: &mut Case) -> Result<(), Fail> {
             }
             if alive.len() < recs_seen.len() {
                 case.class("some-records-expired");
+                if let Some(n) = name {
+                    lapsed.insert(n.clone());
+                }
             }
             if alive.is_empty() {
                 // nothing left of this owner: it is not reported at all
@@ -523,6 +534,12 @@ fn check(d: &Disc, case: &mut Case) -> Result<(), Fail> {
             let hits: Vec<&InstanceInformation> = reported.iter().filter(|r| r.unescaped_instance_name() == *n).collect();
             ensure!(hits.len() == 1, "c15:not-reported-once", "instance {:?} ({}) is reported {} times; reported: {:?}", n, owner, hits.len(), reported.iter().map(|r| r.unescaped_instance_name()).collect::<Vec<_>>());
             let got = summary_of_info(hits[0]);
+            if lapsed.contains(n) {
+                // everything certainly alive is there (what has lapsed may or may not still be shown: C20 decides)
+                let covers = sum.0.is_subset(&got.0) && sum.1.is_subset(&got.1) && (sum.2.is_empty() || got.2 == sum.2);
+                ensure!(covers, "c15:alive-records-missing", "instance {:?}: discovered {:?}, certainly alive {:?}", n, got, sum);
+                continue;
+            }
             if got != *sum {
                 let sig = if got.0 != sum.0 {
                     "c15:addresses-differ"
@@ -536,9 +553,23 @@ fn check(d: &Disc, case: &mut Case) -> Result<(), Fail> {
         }
     }
     // soundness: every reported instance is one expected owner
-    ensure!(reported.len() == expected.len(), "c15:extra-instances", "{} instances reported, {} owners advertised under the service: reported {:?}", reported.len(), expected.len(), reported.iter().map(|r| (r.unescaped_instance_name(), summary_of_info(r))).collect::<Vec<_>>());
+    let firm_reported = reported.iter().filter(|r| !lapsed.contains(&r.unescaped_instance_name())).count();
+    let firm_expected = expected.values().filter(|(n, _)| n.as_ref().map(|n| !lapsed.contains(n)).unwrap_or(true)).count();
+    // (a deeper owner a.<peer>.<service> is reported under the instance name "a": if a peer called "a" has lapsed
+    // records the two cannot be told apart by name and the count makes no claim)
+    let a_is_ambiguous = lapsed.contains("a") && expected.values().any(|(n, _)| n.is_none());
+    ensure!(a_is_ambiguous || firm_reported == firm_expected, "c15:extra-instances", "{} instances reported, {} owners advertised under the service: reported {:?}", firm_reported, firm_expected, reported.iter().map(|r| (r.unescaped_instance_name(), summary_of_info(r))).collect::<Vec<_>>());
     for r in &reported {
         let s = summary_of_info(r);
+        let rname = r.unescaped_instance_name();
+        if lapsed.contains(&rname) {
+            // a peer with lapsed records: nothing beyond what that peer advertised
+            let full = d.peers.iter().find(|p| p.name == rname).map(summary_of_peer);
+            let within = full.map(|f| s.0.is_subset(&f.0) && s.1.is_subset(&f.1) && (s.2.is_empty() || s.2 == f.2)).unwrap_or(false);
+            ensure!(within || expected.values().any(|(_, e)| *e == s), "c15:mixed-instance", "reported instance {:?} {:?} holds something its peer never advertised", rname, s);
+            ensure!(rname != OWN, "c15:own-reported", "the discoverer's own instance is reported");
+            continue;
+        }
         ensure!(expected.values().any(|(_, e)| *e == s), "c15:mixed-instance", "reported instance {:?} {:?} is not the record set of any single advertised owner", r.unescaped_instance_name(), s);
         ensure!(r.unescaped_instance_name() != OWN, "c15:own-reported", "the discoverer's own instance is reported");
     }
